@@ -792,6 +792,15 @@ func c09SameKey(a, b ssa.Value) bool {
 	if c09CellSource(a) != nil && c09CellSource(a) == c09CellSource(b) {
 		return true
 	}
+	// a local captured by a closure is read through its cell on both sides
+	if ra, rb := c09Resolved(a), c09Resolved(b); (ra != a || rb != b) && ra != nil && rb != nil {
+		if ra == rb {
+			return true
+		}
+		if ra2, rb2 := Roots(ra), Roots(rb); len(ra2) == 1 && len(rb2) == 1 && ra2[0] == rb2[0] {
+			return true
+		}
+	}
 	ra, rb := Roots(a), Roots(b)
 	if len(ra) == 0 || len(ra) != len(rb) {
 		return false
@@ -817,8 +826,32 @@ func c09CellSource(v ssa.Value) ssa.Value {
 	if !ok || u.Op != token.MUL {
 		return v
 	}
-	a, ok := u.X.(*ssa.Alloc)
-	if !ok {
+	var a *ssa.Alloc
+	switch x := u.X.(type) {
+	case *ssa.Alloc:
+		a = x
+	case *ssa.FreeVar:
+		// a variable captured by a closure (range-over-func bodies capture every local they use):
+		// the cell of the enclosing function, if every closure instance binds the same one
+		for _, b := range freeVarBindings(x) {
+			// bindings of nested closures are free variables of the parent: follow them
+			for depth := 0; depth < 3; depth++ {
+				if fv, isFV := b.(*ssa.FreeVar); isFV {
+					bs := freeVarBindings(fv)
+					if len(bs) != 1 {
+						return nil
+					}
+					b = bs[0]
+				}
+			}
+			ba, isAlloc := b.(*ssa.Alloc)
+			if !isAlloc || (a != nil && a != ba) {
+				return nil
+			}
+			a = ba
+		}
+	}
+	if a == nil {
 		return nil
 	}
 	st := storesTo(a)
@@ -826,6 +859,31 @@ func c09CellSource(v ssa.Value) ssa.Value {
 		return nil
 	}
 	return st[0].Val
+}
+
+// c09Resolved follows single-store cells (also captured ones) to the value stored.
+func c09Resolved(v ssa.Value) ssa.Value {
+	for i := 0; i < 4 && v != nil; i++ {
+		v = strip(v)
+		u, ok := v.(*ssa.UnOp)
+		if !ok || u.Op != token.MUL {
+			return v
+		}
+		// a field of a local struct that merely carries a value (rebuilt.tagResolver)
+		if fa, isFA := u.X.(*ssa.FieldAddr); isFA {
+			if w := c09FieldValue(fa.X, fa.Field); w != nil {
+				v = w
+				continue
+			}
+			return v
+		}
+		src := c09CellSource(v)
+		if src == nil || src == v {
+			return v
+		}
+		v = src
+	}
+	return v
 }
 
 // c09PathThrough: there is a path entry -> K -> some Return that avoids the cut.
@@ -853,7 +911,7 @@ func c09R2(c *Ctx) {
 		c.LostAnchor(R2, "~/internal/resolver.Memory{index,tags}")
 		return
 	}
-	for _, f := range c.P.FuncsOfPkg("internal/resolver") {
+	for _, f := range c09FuncsOfPkg(c.P, "internal/resolver") {
 		fname := FnName(f)
 		// every use of a loaded index map
 		var kills []ssa.Instruction
@@ -1016,13 +1074,17 @@ func c09R2Kill(c *Ctx, R2 string, f *ssa.Function, mem *types.Named, K ssa.Instr
 	// the same operations performed by a helper of the package on tags[<digest argument>]
 	for _, call := range Calls(f, func(string) bool { return true }) {
 		g := StaticCallee(call)
-		if _, isCall := call.(*ssa.Call); !isCall || g == nil || g == f || fnPkgPath(g) != fnPkgPath(f) || len(g.Blocks) == 0 {
+		if _, isCall := call.(*ssa.Call); !isCall || g == nil || g == f || !inModule(g) || len(g.Blocks) == 0 {
 			continue
 		}
 		args := call.Common().Args
 		for _, op := range []string{"del", "add"} {
-			di, ki, ok := c09HelperSetOp(g, mem, op)
+			mi, di, ki, ok := c09HelperSetOp(g, mem, op)
 			if !ok || di >= len(args) || ki >= len(args) || !c09SameKey(args[ki], key) {
+				continue
+			}
+			// a generic helper receives the map of sets as an argument: it must be m.tags
+			if mi >= 0 && (mi >= len(args) || !c09IsLoadOfField(args[mi], mem, "tags")) {
 				continue
 			}
 			if op == "del" && len(oldVals) > 0 && (old.fieldOf(args[di], "Digest") || old.vals[args[di]]) {
@@ -1089,7 +1151,21 @@ func c09R2Kill(c *Ctx, R2 string, f *ssa.Function, mem *types.Named, K ssa.Instr
 // c09HelperSetOp: on every path, g removes (op "del") / inserts (op "add") its
 // parameter #ki from / into tags[d] where d is its parameter #di (a digest, or a
 // descriptor whose Digest is used).  For "del" a missing or nil set is excused.
-func c09HelperSetOp(g *ssa.Function, mem *types.Named, op string) (di, ki int, ok bool) {
+func c09HelperSetOp(g *ssa.Function, mem *types.Named, op string) (mi, di, ki int, ok bool) {
+	mi = -1
+	// the map of sets: m.tags itself, or a parameter (generic helper set.AddTo(sets, key, item))
+	isTags := func(x ssa.Value) bool {
+		if c09IsLoadOfField(x, mem, "tags") {
+			return true
+		}
+		if pf, i := c09ParamOf(x); pf == g {
+			if mt, isMap := g.Params[i].Type().Underlying().(*types.Map); isMap && c09IsSetType(mt.Elem()) {
+				mi = i
+				return true
+			}
+		}
+		return false
+	}
 	digestParam := func(x ssa.Value) int {
 		if fn, i := c09ParamOf(x); fn == g {
 			return i
@@ -1114,7 +1190,7 @@ func c09HelperSetOp(g *ssa.Function, mem *types.Named, op string) (di, ki int, o
 	AllInstrs(g, func(in ssa.Instruction) {
 		switch u := in.(type) {
 		case *ssa.Lookup:
-			if !c09IsLoadOfField(u.X, mem, "tags") {
+			if !isTags(u.X) {
 				return
 			}
 			i := digestParam(u.Index)
@@ -1136,7 +1212,7 @@ func c09HelperSetOp(g *ssa.Function, mem *types.Named, op string) (di, ki int, o
 				addTo(i, u)
 			}
 		case *ssa.MapUpdate:
-			if op == "add" && c09IsLoadOfField(u.Map, mem, "tags") {
+			if op == "add" && isTags(u.Map) {
 				if i := digestParam(u.Key); i >= 0 {
 					for _, r := range Roots(u.Value) {
 						addTo(i, r)
@@ -1169,11 +1245,11 @@ func c09HelperSetOp(g *ssa.Function, mem *types.Named, op string) (di, ki int, o
 				}
 			}
 			if all {
-				return i, k, true
+				return mi, i, k, true
 			}
 		}
 	}
-	return -1, -1, false
+	return -1, -1, -1, false
 }
 
 // c09DeletesIndexOfParam: every path through g deletes index[p] or finds it absent.
